@@ -66,6 +66,7 @@ def run(rep: Report, tier: str) -> None:
 	rule_attr_walkers(rep, idx)
 	rule_ternary_merge(rep, idx)
 	rule_receiver_kinds(rep, idx)
+	rule_member_binding(rep, idx)
 
 
 def rule_a(rep: Report, idx: SourceIndex) -> None:
@@ -718,3 +719,38 @@ def rule_receiver_kinds(rep: Report, idx: SourceIndex) -> None:
 					r.violate(key, (rel, n.lineno), f'{q} tests `{unparse(n)[:80]}` and no other arm of the chain tests {missing}: in the node hierarchy {names} are siblings under Function (only the template HELPER classes of the same names derive from one another), so a call of a {"/".join(missing)} is handled as a plain function, the implicit receiver is not skipped and each argument (a lambda: its parameters) is typed from the parameter one position to the left', unparse(n)[:120])
 	if n_sites == 0:
 		r.skip('kind-tests', None, 'no test over the receiver kinds found in the semantics layer')
+
+
+def rule_member_binding(rep: Report, idx: SourceIndex) -> None:
+	"""`a.b`: the member `b` is looked up on the ACTUAL class of `a` (the receiver after unwrapping optionals, aliases, Self and bounded type
+	variables: `.actualize()`), and the member symbol must be bound (`X.to(node.prop, member)`) to that same receiver — binding is what substitutes the
+	class's type variables in the member's type. Bound to the receiver as written (`Box[int] | None`), the substitution runs against the union: a
+	property returning `T` is typed `Box<int>`, one returning `list[T]` comes out `list<None>`."""
+	from vlib.match import expand_use, nodes
+	r = rep.rule('C03/member-bound-to-the-receiver-it-was-found-on', 'in ProceduralResolver.on_relay a member obtained with R.prop_of(...) is bound with R.to(<prop node>, member) on the same (actualized) receiver R', floor=1)
+	m = idx.mod('rogw/tranp/semantics/reflections.py')
+	cls = m.cls('ProceduralResolver')
+	f = cls.method('on_relay') if cls else None
+	if f is None:
+		r.skip('on_relay', (m.relpath, 1), 'ProceduralResolver.on_relay vanished')
+		return
+	fn = f.node
+	found: dict[str, ast.AST] = {}
+	for a in nodes(fn, (ast.Assign, ast.AnnAssign)):
+		v = getattr(a, 'value', None)
+		tgt = (a.targets[0] if isinstance(a, ast.Assign) else a.target)
+		if isinstance(v, ast.Call) and isinstance(v.func, ast.Attribute) and v.func.attr == 'prop_of' and isinstance(tgt, ast.Name):
+			found[tgt.id] = v.func.value
+	if not found:
+		r.skip('on_relay', f.where, 'on_relay no longer keeps the result of <receiver>.prop_of(...) in a local')
+		return
+	n_sites = 0
+	for c_ in nodes(fn, ast.Call):
+		if not (isinstance(c_.func, ast.Attribute) and c_.func.attr == 'to' and len(c_.args) == 2 and isinstance(c_.args[1], ast.Name) and c_.args[1].id in found):
+			continue
+		n_sites += 1
+		owner = found[c_.args[1].id]
+		bound_on, found_on = unparse(expand_use(fn, c_.func.value)), unparse(expand_use(fn, owner))
+		r.check(bound_on == found_on, f'bind:{unparse(c_)[:50]}', (m.relpath, c_.lineno), f'`{c_.args[1].id}` was looked up on `{found_on[:70]}` but is bound on `{bound_on[:70]}`: the type variables of the member are substituted from the receiver it is bound on, and a receiver that is not actualized (an optional, an alias, Self) does not carry the class arguments in the expected positions — `opt.first` for `opt: Box[int] | None` with `@property first -> T` is typed `Box<int>` instead of `int`', unparse(c_))
+	if n_sites == 0:
+		r.skip('on_relay', f.where, 'no `<receiver>.to(<node>, <member>)` binding of the looked-up member in on_relay')
